@@ -173,7 +173,14 @@ def _drain_iteration(h, first):
             # the loop test must be true: queue is non-empty by construction
             if not it.test(it.eval(node.test, env)):
                 raise PathEnd()
-            it.exec_block(node.body, env)
+            from pyvc.interp import _Break, _Return, _Continue
+            try:
+                it.exec_block(node.body, env)
+            except _Continue:
+                pass
+            except (_Break, _Return):
+                h.oblige("the drain goes on to the next entry after every entry: it ends only with an empty queue, a lost link or an exception",
+                         False, kind="site")
             # the body completed normally: the next iteration is another arbitrary iteration
             raise LoopCut()
         return None
